@@ -232,7 +232,7 @@ DataViol(c) ==
     \cup (IF isNew /\ ~c.il /\ c.fi > 0 /\ ((c.tsn - 1) \notin DOMAIN ch[e] \/ prevC.id # c.id \/ prevC.fi # c.fi - 1)
           THEN {V("C17_ConsecutiveTSN", <<e, c.tsn, c.id, c.fi>>)} ELSE {})
     \cup (IF c.il /\ c.fsn # c.fi THEN {V("C17_FsnOrder", <<e, c.tsn, c.id, c.fi, c.fsn>>)} ELSE {})
-    \cup (IF known /\ m.rtype = 1 /\ m.ppi # 50 /\ ntx > m.rval + 1 THEN {V("C06_RexmitCap", <<e, c.tsn, c.id, ntx, m.rval>>)} ELSE {})
+    \cup (IF known /\ m.rtype = 1 /\ m.ppi # 50 /\ ntx > m.rval + 1 THEN {V("C06_RexmitCap", <<e, c.tsn, c.id, ntx, m.rval, IF m.len > c.len THEN "fragmented" ELSE "whole">>)} ELSE {})
     \cup (IF known /\ m.rtype = 2 /\ m.ppi # 50 /\ late > 1 THEN {V("C06_Lifetime", <<e, c.tsn, c.id, late, m.rval>>)} ELSE {})
 
 TrChunkData ==
